@@ -1,6 +1,9 @@
 """Executable oracles that judge the *implementation* directly (DESIGN.md §2.6 step 3).
 Each returns {"evaluations": n, "distinct_nontrivial": m, "failures": [...]}; a failure carries the
 request lines that reproduce it (`requests`), the input, what was observed and what was expected."""
+import sys as _sys
+if hasattr(_sys, 'set_int_max_str_digits'):
+    _sys.set_int_max_str_digits(0)      # builder renderings of 70 000 digits are legitimate test values
 import os, sys, re
 sys.path.insert(0, os.path.dirname(os.path.abspath(__file__)))
 import t2nlib, streams
@@ -15,12 +18,29 @@ def run_impl(ctx, tag, lines):
             f.write(l + "\n")
     outp = ctx.path(tag + ".oimpl")
     rc, err = t2nlib.run_exec(t2nlib.HARNESS_BIN, reqp, outp)
-    if rc != 0:
-        raise RuntimeError("harness failed: " + err)
     out = open(outp, encoding="utf-8").read().split("\n")
     if out and out[-1] == "":
         out.pop()
-    assert len(out) == len(lines), (len(out), len(lines))
+    # a panic is caught per request (answer PANIC); what kills the whole process (stack overflow, abort on
+    # allocation failure) is not: the first unanswered request is the culprit — answer it PANIC and go on after it
+    guard = 0
+    while rc != 0 and len(out) < len(lines) and guard < 50:
+        guard += 1
+        out = out[:len(out)]                      # complete lines only (a partial last line has no newline: dropped by split)
+        out.append("PANIC")
+        rest = lines[len(out):]
+        if not rest:
+            break
+        with open(reqp, "w", encoding="utf-8") as f:
+            for l in rest:
+                f.write(l + "\n")
+        rc, err = t2nlib.run_exec(t2nlib.HARNESS_BIN, reqp, outp)
+        more = open(outp, encoding="utf-8").read().split("\n")
+        if more and more[-1] == "":
+            more.pop()
+        out += more
+    if len(out) != len(lines):
+        raise RuntimeError("harness failed: rc=%s %s (%d of %d answers)" % (rc, err, len(out), len(lines)))
     return out
 
 
@@ -657,7 +677,7 @@ def oracle_c02(ctx, focus):
         bank = phrase_bank(ctx, lang)
         texts = list(streams.bank(lang)["tests"])
         for _ in range(1500 if ctx.tier != "thorough" else 30000):
-            t = sentence(rng, lang, bank, extra=["x-y", "l'a", "é", "日本", "á", "\U0001F600", "o", "neuf", "Ça", "naïve"])
+            t = sentence(rng, lang, bank, extra=["x-y", "l'a", "é", "日本", "á", "\U0001F600", "o", "neuf", "Ça", "naïve", "pro\u00adgramme", "\u00ad", "a\u200bb", "\ufeffx", "x\u0000y", "a\u2060b", "\u200d", "q\u02b0", "\ue000"])
             if rng.chance(1, 5):
                 t = rng.choice([" ", "\t", "…", "(", "-", "'"]) + t
             if rng.chance(1, 5):
@@ -789,6 +809,7 @@ def oracle_c03(ctx, focus):
         # many spoken zeros before / after / between numbers (length and emptiness predicates count them)
         bank = phrase_bank(ctx, lang)
         zw = {"en": "zero", "fr": "zéro", "es": "cero", "pt": "zero", "it": "zero", "de": "null", "nl": "nul"}[lang]
+        inputs.append(" ".join([zw] * 66000 + [bank[1]]))      # more zeros than a 16-bit length can count
         for k in (1, 2, 3, 4, 7, 12):
             for ph in bank[:: max(1, len(bank) // (12 if ctx.tier != "thorough" else 120))]:
                 inputs.append(" ".join([zw] * k + [ph]))
@@ -813,6 +834,13 @@ def oracle_c03(ctx, focus):
                     reqs.append("occ\t%s%s\t%s\t%s" % (pref, lang, rng.choice(thrs), esc(t)))
                     toks = " ".join("%s,%s,%d,%d,%d" % (esc(w), esc(w.lower()), rng.below(8) == 0, 300 * i * (rng.below(3) == 0), 300 * i) for i, w in enumerate(t.split(" ")[:60]))
                     reqs.append("scan\t%s%s\t%s\t%s" % (pref, lang, rng.choice(thrs), toks))
+    # very long token streams through batch search, the lazy iterator and the stream rewrite: tens of thousands of tokens
+    # without a number, then one (recursion depth, quadratic buffers)
+    for lc, filler, num in (("script", "w", "d5 d3"), ("en", "lorem", "twenty five"), ("de", "wort", "drei und zwanzig")):
+        for count in (30000, 120000):
+            ws = [filler] * count + num.split(" ")
+            toks = " ".join("%s,%s,0,%d,%d" % (esc(w), esc(w), 10 * i, 10 * i + 10) for i, w in enumerate(ws))
+            reqs.append("scan\t%s\t%s\t%s" % (lc, t2nlib.thr_bits(10.0), toks))
     for c in DEGENERATE[:30] + ["en", "pt", "xx"]:
         reqs.append("lookup\t" + esc(c))
     outs = run_impl(ctx, "c03", reqs)
